@@ -57,7 +57,9 @@ def scopes(tier):
     return [
         ("A", sc("WorldsFlat", "import,importas,from,fromas,star", 2, 2, 4)),
         ("B", sc("WorldsFlat", "from,from2,import2,all", 2, 1, 4, owndefs=("h",))),
-        ("C", sc("WorldsFlat", "import,from,star", 3 if not q else 2, 1, 4, FnFlags=both)),
+        ("C", sc("WorldsFlat", "import,from,star", 3 if not q else 2, 1, 4, FnFlags=both, keep_fn=True)),
+        # three package levels, relative imports of level 1..3
+        ("H", sc("WorldsDeep3", "from,rel", 2, 1, 3, MaxChain=2)),
         ("E", sc("WorldsPkg", "import,importas,from,rel,rel2,relstar", 2, 1, 3, qforms="import,from,rel,rel2,relstar")),
         ("F", sc("WorldsInit", "rel,relstar,from,all", 2, 1, 3, qforms="rel,all")),
         ("G", sc("WorldsDeep", "import,importas,from,rel", 2, 2, 4, qforms="import,importas,rel")),
